@@ -168,7 +168,7 @@ class AstDB:
         """definitions whose demangled name is `qualname(...)` (optionally containing `sig`)"""
         res = []
         for n in self.byid.values():
-            if n['kind'] not in ('FunctionDecl', 'CXXMethodDecl', 'CXXConstructorDecl'):
+            if n['kind'] not in ('FunctionDecl', 'CXXMethodDecl', 'CXXConstructorDecl', 'CXXConversionDecl'):
                 continue
             q = n.get('_qual')
             if not q:
